@@ -64,6 +64,7 @@ type CallerSpec struct {
 	ArriveAt    time.Duration // virtual arrival time of the first request
 	Gap         time.Duration // virtual pause between requests
 	ShareCtx    int           // >0: reuse the context of caller ShareCtx-1
+	TraceGroup  int           // >0: the request span is a child of a root span shared by the callers of this group (same trace id, distinct span ids)
 }
 
 type ReqState struct {
@@ -352,8 +353,15 @@ func (w *World) Main() {
 		vs.HarnessFail("scenario %s: build: %v", sc.Name, err)
 	}
 	// contexts
+	groupRoot := map[int]context.Context{}
 	for _, c := range w.callers {
 		var ctx context.Context = context.Background()
+		if g := c.Spec.TraceGroup; g > 0 && sc.Tracing {
+			if groupRoot[g] == nil {
+				groupRoot[g], _ = w.tp.Tracer("driver").Start(context.Background(), fmt.Sprintf("fan-out-%d", g))
+			}
+			ctx = groupRoot[g]
+		}
 		if c.Spec.ShareCtx > 0 {
 			o := w.callers[c.Spec.ShareCtx-1]
 			c.Ctx, c.Ctrl, c.Span = o.Ctx, o.Ctrl, o.Span
